@@ -101,8 +101,34 @@ func (t c06Table) vc() tally.ValidCharacters {
 func c06FromSO(o tally.SanitizeOptions) c06Opts {
 	return c06Opts{Name: c06FromVC(o.NameCharacters), Key: c06FromVC(o.KeyCharacters), Value: c06FromVC(o.ValueCharacters), Rep: int32(o.ReplacementCharacter)}
 }
+// so builds the options as a caller might: classes with the same ranges share ONE ranges slice, and
+// that slice has spare capacity (e.g. built with append) - the options are the caller's memory and
+// each class's sanitizer must leave it alone.
 func (o c06Opts) so() tally.SanitizeOptions {
-	return tally.SanitizeOptions{NameCharacters: o.Name.vc(), KeyCharacters: o.Key.vc(), ValueCharacters: o.Value.vc(), ReplacementCharacter: rune(o.Rep)}
+	so := tally.SanitizeOptions{NameCharacters: o.Name.vc(), KeyCharacters: o.Key.vc(), ValueCharacters: o.Value.vc(), ReplacementCharacter: rune(o.Rep)}
+	same := func(a, b c06Table) bool {
+		if len(a.R) != len(b.R) {
+			return false
+		}
+		for i := range a.R {
+			if a.R[i] != b.R[i] {
+				return false
+			}
+		}
+		return true
+	}
+	shared := make([]tally.SanitizeRange, len(so.NameCharacters.Ranges), len(so.NameCharacters.Ranges)+8)
+	copy(shared, so.NameCharacters.Ranges)
+	if len(shared) > 0 {
+		so.NameCharacters.Ranges = shared
+		if same(o.Name, o.Key) {
+			so.KeyCharacters.Ranges = shared
+		}
+		if same(o.Name, o.Value) {
+			so.ValueCharacters.Ranges = shared
+		}
+	}
+	return so
 }
 
 var c06ShippedNames = []string{"m3", "prometheus", "alnum_", "alnum_-", "alnum_-."}
@@ -290,6 +316,22 @@ func c06GenOpts(r *Rng) c06Opts {
 		o.Key, o.Value = c06AdvTable(r), c06AdvTable(r)
 	} else {
 		o.Key, o.Value = o.Name, o.Name
+		if r.Chance(50) {
+			// the same ranges, other extra characters per class (as m3: ".-_" for names and values, "-_" for keys)
+			o.Key.C, o.Value.C = nil, nil
+			for _, ch := range o.Name.C {
+				if r.Bool() {
+					o.Key.C = append(o.Key.C, ch)
+				}
+				if r.Bool() {
+					o.Value.C = append(o.Value.C, ch)
+				}
+			}
+			extra := []int32{'.', '-', '_', ':', '/', '~'}
+			o.Key.C = append(o.Key.C, extra[r.Intn(len(extra))])
+			o.Value.C = append(o.Value.C, extra[r.Intn(len(extra))])
+			o.Name.C = append(o.Name.C, extra[r.Intn(len(extra))])
+		}
 	}
 	if r.Chance(30) {
 		// alphanumeric with a boundary nudged: off-by-one sensitive
